@@ -281,12 +281,24 @@ theorem prefix_cut (p : Bytes) : ∀ pre, ProperPre pre (comps p) → ∃ x, Cut
 /-! ## C. the guard -/
 
 /-- resolution of a relative path starts at the current directory and walks `comps` -/
-theorem resolveRR_rel (s : Fs.St) (fl : Bool) (p : Bytes) (hrel : p.head? ≠ some 0x2f) :
+theorem resolveRR_rel (s : Fs.St) (fl : Bool) (p : Bytes) (hrel : p.head? ≠ some 0x2f) (hne : p ≠ []) :
     Fs.resolveRR s fl p = Fs.resolve s fl 64 s.cwd (comps p) := by
   have h1 : Fs.mapAbs s p = some p := by simp [Fs.mapAbs, hrel]
   unfold Fs.resolveRR
-  rw [h1]
+  rw [if_neg hne, h1]
   simp [hrel, comps]
+
+/-- the empty path names nothing -/
+theorem resolvePath_nil (s : Fs.St) (fl : Bool) : Fs.resolvePath s fl [] = none := by
+  simp [Fs.resolvePath, Fs.resolveRR]
+
+theorem cut_ne_nil (p x : Bytes) (hx : Cut p x) : x ≠ [] := by
+  obtain ⟨i, h0, hi, _, rfl⟩ := hx
+  intro h
+  have hl := congrArg List.length h
+  rw [List.length_take, List.length_nil] at hl
+  have : min i p.length = i := Nat.min_eq_left (Nat.le_of_lt hi)
+  omega
 
 theorem comps_good (p : Bytes) (hnd : NoDotDot p) : ∀ c ∈ comps p, Good c := by
   intro c hc
@@ -303,7 +315,7 @@ theorem guard_pGuard (fs : Fs.St) (p : Bytes) (hrel : p.head? ≠ some 0x2f)
   have hsx := guard_cut fs p x hg hx
   have hxrel : x.head? ≠ some 0x2f := by rw [cut_head p x hx]; exact hrel
   unfold Fs.isSymlink Fs.resolvePath at hsx
-  rw [resolveRR_rel fs false x hxrel, hcx, hr] at hsx
+  rw [resolveRR_rel fs false x hxrel (cut_ne_nil p x hx), hcx, hr] at hsx
   simp [hl] at hsx
 
 /-- **C10, the deferred-link guard.**  `fs.cwd` is the extraction directory; `p` is a relative
@@ -317,8 +329,10 @@ theorem guard_resolve (fs : Fs.St) (p : Bytes) (q : Fs.Path)
     (hr : Fs.resolvePath fs false p = some q) :
     q = fs.cwd ++ comps p ∧
       ∀ pre, ProperPre pre (comps p) → ∃ m t, Fs.lookup fs (fs.cwd ++ pre) = some (.dir m t) := by
+  have hne : p ≠ [] := by
+    intro h; subst h; rw [resolvePath_nil] at hr; cases hr
   unfold Fs.resolvePath at hr
-  rw [resolveRR_rel fs false p hrel] at hr
+  rw [resolveRR_rel fs false p hrel hne] at hr
   cases hres : Fs.resolve fs false 64 fs.cwd (comps p) with
   | ok r =>
     rw [hres] at hr
